@@ -211,6 +211,11 @@ class Parser(object):
 
     def p_enum_def(self, t):
         '''enum_def : ENUM unique_id enum_body SEMI'''
+        self._parser_check(
+            t[2] not in self.constdecls,
+            "name '{}' redefined".format(t[2]),
+            t.lineno(1), t.lexpos(1)
+        )
         node = model.Enum(t[2], t[3])
         self.typedecls[t[2]] = node
         self.nodes.append(node)
